@@ -761,6 +761,39 @@ func ruleP16Closed(p *Prog, r *Report) {
 			if fieldStores == 0 {
 				return // zero value used as receiver copy etc.
 			}
+			// a literal that takes every value field from the same-named field of one existing
+			// value of the type is a copy spelled field by field
+			if !al[fnName(f)] {
+				fieldwise := true
+				var src ssa.Value
+				for _, ref := range *a.Referrers() {
+					fa, ok := ref.(*ssa.FieldAddr)
+					if !ok {
+						continue
+					}
+					for _, r2 := range *fa.Referrers() {
+						st, ok := r2.(*ssa.Store)
+						if !ok || fieldName(fa) == "format" {
+							continue
+						}
+						base, fld := fieldLoad(st.Val)
+						if base == nil || fld != fieldName(fa) || typeNameOf(base.Type()) != tn {
+							fieldwise = false
+							continue
+						}
+						if src == nil {
+							src = base
+						} else if !sameValue(src, base) && strip(src) != strip(base) {
+							fieldwise = false
+						}
+					}
+				}
+				if fieldwise && src != nil {
+					n++
+					r.ok(rule, tn+":copy:"+fnName(f), p.instrPos(a), "field-by-field copy of a valid "+tn+" with only its format changed")
+					return
+				}
+			}
 			n++
 			r.check(al[fnName(f)], rule, tn+":"+fnName(f), p.instrPos(a), tn+" is constructed in its validating constructor", "a "+tn+" value is constructed outside its validating constructor (in "+fnName(f)+"): invalid values become representable")
 		})
@@ -1195,6 +1228,12 @@ func ruleP16Fold(p *Prog, r *Report) {
 		for _, g := range gs {
 			bo, ok := normCmp(g.Cond)
 			if !ok {
+				if ph, isPhi := g.Cond.(*ssa.Phi); isPhi && g.Pol {
+					// the value of `a && b` kept in a variable: its conjuncts are in the list
+					if alts, okA := truthAlts(ph, 0); okA && len(alts) == 1 {
+						continue
+					}
+				}
 				if g.Pol {
 					extra = g.Cond.String()
 				}
